@@ -88,6 +88,9 @@ func (s *Spec) respPlanFor(r *simfw.RNG, op string, mk string) respPlan {
 		case 0:
 			return respPlan{200, [][2]string{{"Content-Type", "text/plain"}}, mk + " pong", "valid"}
 		case 1:
+			if r.Chance(1, 3) {
+				return respPlan{204, nil, mk + " a body that 204 does not allow", "valid"} // the connection refuses it; the declaration has no content to check
+			}
 			return respPlan{204, nil, "", "valid"}
 		case 2:
 			return respPlan{200, [][2]string{{"Content-Type", "text/plain"}}, "x", "invalid"} // minLength 2; no marker fits
@@ -333,6 +336,9 @@ func (s *Spec) request(r *simfw.RNG, i int, faultOK bool) Req {
 			q.Path = base + fmt.Sprintf("/items/%d", r.Range(1, 500))
 		case 2:
 			q.Path = base + "/ping"
+			if r.Chance(1, 3) {
+				q.Method = "HEAD" // response validation is skipped for HEAD; the connection discards any body
+			}
 		default:
 			q.Path = base + simfw.Pick(r, []string{"/items/abc", "/items/0", "/items/-3"})
 			q.Intent = "invalid:path"
@@ -427,6 +433,9 @@ func (s *Spec) request(r *simfw.RNG, i int, faultOK bool) Req {
 		q.CLUnknown = r.Chance(1, 4)
 	}
 	op := "postItem"
+	if q.Method == "HEAD" {
+		op = "ping"
+	}
 	if q.Method == "GET" {
 		op = "getItem"
 		if strings.HasSuffix(q.Path, "/ping") {
@@ -434,6 +443,9 @@ func (s *Spec) request(r *simfw.RNG, i int, faultOK bool) Req {
 		}
 	}
 	q.Script, q.RespIntent = s.script(r, op, mk)
+	if q.Method == "HEAD" {
+		q.RespIntent = "unknown" // responses to HEAD are not checked
+	}
 	if faultOK && r.Chance(1, 5) {
 		q.Client.WriteErrAt = r.Range(1, 30)
 		q.Client.Short = r.Bool()
